@@ -50,12 +50,12 @@ IRet(x)              == [t |-> "ret", x |-> x]
 (* Interpreter                                                             *)
 (***************************************************************************)
 MoveKind(cfg) == IF cfg.hasMove THEN 2 ELSE 1                                   \* copy-only types: an rvalue binds to the copy ctor
-StrongKind(cfg) == IF cfg.hasMove /\ (cfg.nothrowMove \/ ~cfg.copyable) THEN 2 ELSE 1     \* relocate_with_move (2505)
+StrongKind(cfg) == IF cfg.hasMove /\ (cfg.nothrowMoveCtor \/ ~cfg.copyable) THEN 2 ELSE 1     \* relocate_with_move (2505)
 
 Fallible(cfg, ins) ==
   CASE ins.t = "alloc" -> TRUE
-    [] ins.t = "ctor" -> ins.kind \in {0, 1, 3} \/ (ins.kind = 2 /\ ~cfg.nothrowMove)
-    [] ins.t = "asg"  -> ins.kind = 1 \/ (ins.kind = 2 /\ ~cfg.nothrowMove)
+    [] ins.t = "ctor" -> ins.kind \in {0, 1, 3} \/ (ins.kind = 2 /\ ~cfg.nothrowMoveCtor)
+    [] ins.t = "asg"  -> ins.kind = 1 \/ (ins.kind = 2 /\ ~cfg.nothrowMoveAssign)
     [] OTHER -> FALSE
 
 FaultKind(ins) ==
@@ -112,6 +112,8 @@ RunOne(cfg, s, ins) ==
          ELSE LET h == RunSeq(cfg, r.s, ins.handler, 1) IN
               [s |-> h.s, exc |-> IF h.exc = "" THEN r.exc ELSE h.exc]      \* handlers rethrow; a throwing handler propagates its own
     [] ins.t = "uc" -> RunUc(cfg, s, ins.items, 1)
+    [] ins.t = "dtor_to_size" ->       \* destroy [from, current size), size := from  (depends on the size reached so far)
+         RunSeq(cfg, s, [j \in 1..(s.hd[ins.c].sz - ins.from) |-> IDtor(ins.R, ins.from + j - 1)] \o <<ISetSz(ins.c, ins.from)>>, 1)
     [] ins.t = "throw" -> [s |-> s, exc |-> ins.what]
     [] OTHER ->
          IF Fallible(cfg, ins) THEN
@@ -313,7 +315,7 @@ AssignCopies(cfg, c, x, R, id, n, sr, si) ==
     \o (IF n < x.sz THEN <<ISetSz(c, n)>> \o DestroyRange(R, n, x.sz) ELSE <<>>)
 
 \* erase_at / erase_range / erase_last / erase_all (4384-4431)
-EraseRange(cfg, c, x, R, f, l) ==
+EraseRangeImpl(cfg, c, x, R, f, l) ==
   IF f = l THEN <<IRet(f)>>
   ELSE MoveLeft(cfg, R, l, x.sz, f) \o <<ISetSz(c, x.sz - (l - f))>> \o DestroyRange(R, x.sz - (l - f), x.sz) \o <<IRet(f)>>
 
@@ -345,7 +347,7 @@ Script(cfg, pre, ln, id) ==
     [] op = "push_back_m"    -> AppendElement(cfg, c, x, R, id, <<MoveKind(cfg), 4, 100, 0>>, -1)
     [] op = "emplace_back_v" -> AppendElement(cfg, c, x, R, id, <<3, 0, 0, ln.v[1]>>, x.sz)
     [] op \in {"insert", "emplace_c"} -> EmplaceAt(cfg, c, x, R, id, a[1], arg(a[2]), FALSE)
-    [] op = "insert_m"       -> EmplaceAt(cfg, c, x, R, id, a[1], <<MoveKind(cfg), 4, 100, 0>>, cfg.nothrowMove /\ cfg.hasMove)
+    [] op = "insert_m"       -> EmplaceAt(cfg, c, x, R, id, a[1], <<MoveKind(cfg), 4, 100, 0>>, cfg.nothrowMoveCtor /\ cfg.hasMove)
     [] op = "emplace_v"      -> EmplaceAt(cfg, c, x, R, id, a[1], <<3, 0, 0, ln.v[1]>>, FALSE)
     [] op = "insert_n"       -> LET s == arg(a[3]) IN InsertCopies(cfg, c, x, R, id, a[1], a[2], s[2], s[3])
     [] op = "resize"         -> ResizeWith(cfg, c, x, R, id, a[1], FALSE, 0, 0)
@@ -353,8 +355,8 @@ Script(cfg, pre, ln, id) ==
     [] op = "reserve"        -> Reserve(cfg, c, x, R, id, a[1])
     [] op = "shrink"         -> Shrink(cfg, c, x, R, id, N, InlRegion(c))
     [] op = "assign_n"       -> AssignCopies(cfg, c, x, R, id, a[1], 4, 100)
-    [] op = "erase"          -> EraseRange(cfg, c, x, R, a[1], a[1] + 1)
-    [] op = "erase_rng"      -> EraseRange(cfg, c, x, R, a[1], a[2])
+    [] op = "erase"          -> EraseRangeImpl(cfg, c, x, R, a[1], a[1] + 1)
+    [] op = "erase_rng"      -> EraseRangeImpl(cfg, c, x, R, a[1], a[2])
     [] op = "pop_back"       -> <<ISetSz(c, x.sz - 1), IDtor(R, x.sz - 1)>>
     [] op = "clear"          -> <<ISetSz(c, 0)>> \o DestroyRange(R, 0, x.sz)
     [] op = "dtor"           -> DestroyRange(R, 0, x.sz) \o (IF x.st > 0 THEN <<IDealloc(x.st, x.cap, x.al)>> ELSE <<>>) \o <<ISetP(c, FALSE, 0)>>
@@ -369,10 +371,6 @@ Script(cfg, pre, ln, id) ==
               ELSE <<IAlloc(id, n, al), ITry(<<fl(10 + id)>>, <<IDealloc(id, n, al)>>),
                      ISetP(c, TRUE, al), ISetHd(c, n, id), ISetSz(c, n)>>
             ELSE <<fl(InlRegion(c)), ISetP(c, TRUE, al), ISetHd(c, N, 0), ISetSz(c, n)>>
-
-\* "dtor_to_size": destroy [from, current size) and set the size to `from` (handler of insert_copies, 3930)
-ExpandDyn(s, ins) ==
-  IF ins.t = "dtor_to_size" THEN DestroyRange(ins.R, ins.from, s.hd[ins.c].sz) \o <<ISetSz(ins.c, ins.from)>> ELSE <<ins>>
 
 ContOf(cfg, s, c) ==
   LET h == s.hd[c]
@@ -406,6 +404,4 @@ Exec(cfg, pre, ln) ==
       evs |-> s.evs, evtrunc |-> FALSE,
       post |-> [A |-> ContOf(cfg, s, "A"), B |-> ContOf(cfg, s, "B")], blocks |-> blks, can |-> TRUE]
 
-\* scripts may contain dynamic instructions: expand them when they are reached
-\* (handled inside RunSeq through ExpandDyn -- see RunSeqDyn)
 =============================================================================
